@@ -586,8 +586,10 @@ theorem C13_clocks_differ :
     (∀ r k : Nat, 1 ≤ r → (moduleIndexRange r k).1 ≤ (moduleIndexRange r k).2) ∧
     (∀ k : Nat, moduleIndexRange 1 k = (k, k)) ∧
     (∀ c j : Nat, 2 ≤ c → 1 ≤ j → j < simIndexCoarse c j) ∧
-    (∀ j : Nat, simIndexCoarse 1 j = j) := by
-  refine ⟨?_, ?_, ?_, ?_, ?_⟩
+    (∀ j : Nat, simIndexCoarse 1 j = j) ∧
+    (∀ c j k : Nat, 2 ≤ c → 2 ≤ j → (simIndexRangeCoarse c j).1 ≤ k → j < k) ∧
+    (∀ c j : Nat, 1 ≤ c → (simIndexRangeCoarse c j).2 = simIndexCoarse c j) := by
+  refine ⟨?_, ?_, ?_, ?_, ?_, ?_, ?_⟩
   · intro r k m hr hk hm
     have h : 2 * (k - 1) ≤ r * (k - 1) := Nat.mul_le_mul_right _ hr
     simp only [moduleIndexRange] at hm
@@ -608,7 +610,17 @@ theorem C13_clocks_differ :
     have h : 2 * j ≤ c * j := Nat.mul_le_mul_right _ hc
     simp only [simIndexCoarse]; omega
   · intro j; simp [simIndexCoarse]
+  · intro c j k hc hj hk
+    have h : 2 * (j - 1) ≤ c * (j - 1) := Nat.mul_le_mul_right _ hc
+    simp only [simIndexRangeCoarse] at hk
+    split at hk <;> simp at hk <;> omega
+  · intro c j _
+    simp only [simIndexRangeCoarse, simIndexCoarse]
+    split
+    · next h => simp [h]
+    · rfl
 
+example : simIndexRangeCoarse 2 3 = (5, 6) := by decide
 example : moduleIndexRange 4 1 = (1, 4) ∧ moduleIndexRange 4 2 = (5, 8) ∧ simIndexCoarse 3 5 = 15 := by decide
 
 /-- non-vacuity of the two-clock statement: a module on half the simulation's step is at its step 16 while the simulation
